@@ -21,6 +21,8 @@ def check(rep):
     rule_token_conv(ctx, rid="C12.SALT-TOKEN-EXACT", only_tokens=salt_tokens or {"STRING_LITERAL"}, floor=1)
     ER.rule_call_forwards(ctx, rid="C12.CALL-FORWARDS")
     ER.rule_installed_function(ctx, rid="C12.INSTALLED-FUNCTION", strict=False, facets=("installed",))
+    # "the evaluator's" assignments: an evaluator that skips a recompile for a different text keeps answering for the old experiment
+    ER.rule_skip_guard(ctx, rid="C12.SKIP-EXACT")
     ER.rule_value_keyed_caches(ctx, rid="C12.NO-VALUE-KEYED-CACHE", modules={"binning/binning.py", "experiment_evaluator.py"})
     rep.assume("MD5 itself (hashlib) is trusted")
     return ("Abstract evaluation of the source to a canonical scheme descriptor compared with the published one: hash = md5, "
